@@ -59,6 +59,7 @@ var shimName = map[string]string{
 	"os/signal": "signal",
 	"syscall":   "syscall",
 	"math/rand": "rand",
+	"sync":      "sync",
 }
 
 func Transform(opt Options) (*Report, error) {
